@@ -288,6 +288,7 @@ class G:
         names = ["A", "B", "C", "D"][:depth]
         methods = ["m1", "m2", "m3"]
         defined = {}
+        extra = {}
         for i, n in enumerate(names):
             attrs = ["constructor(new)"]
             if i > 0:
@@ -313,10 +314,17 @@ class G:
             if self.r.chance(1, 3):
                 self.tag("static")
                 lines += ["    #[static]", "    fn make(x) { return Self.new%s; }" % ("(x)" if self.ctor_takes_arg(n, lines) else "()")]
-            if self.r.chance(1, 3):
+            if self.r.chance(1, 2):
                 self.tag("bound-super")
                 if i > 0 and any("m1" in defined[a] for a in names[:i]):
                     lines += ["    fn grab(self) { return super.m1; }"]
+                    extra.setdefault(n, []).append("grab")
+            if i > 0 and self.r.chance(1, 2):
+                up = self.r.choice(methods)
+                if any(up in defined[a] for a in names[:i]):
+                    self.tag("super-from-other-method")
+                    lines += ["    fn up(self, x) { return \"%s.up>\" + super.%s(x); }" % (n, up)]
+                    extra.setdefault(n, []).append("up")
             lines.append("}")
         lines.append("var objs = [];")
         for n in names:
@@ -339,6 +347,15 @@ class G:
                 else:
                     self.tag("field-shadows-method")
                     lines += ["%s.%s = |x| \"field:\" + x;" % (o, m)] + self.guarded_print("%s.%s(\"c\")" % (o, m))
+        # methods that reach the superclass from another method, called on EVERY object that has them (own or inherited), after the
+        # field shadowing above: the receiver's dynamic class and its fields must not matter to `super`
+        for j, n in enumerate(names):
+            o = "objs[%d]" % j
+            have = [x for a in names[:j + 1] for x in extra.get(a, [])]
+            if "up" in have:
+                lines += self.guarded_print("%s.up(\"u\")" % o)
+            if "grab" in have:
+                lines += ["try { var g = %s.grab(); print(g(\"g\")); } catch e { print(type(e)); print(e.context); }" % o]
         if self.r.chance(1, 2):
             self.tag("rebinding")
             lines += ["var %s_old = %s;" % (names[0], names[0]), "%s = nil;" % names[0]]
